@@ -16,6 +16,11 @@ Lemma gen_looks :
   /\ looks_like_subrepo_rune = ":"%string /\ looks_like_subrepo_infix = "//"%string.
 Proof. repeat split. Qed.
 
+(* packageKey.String(): the PackageMap key of a subrepo package is `@sub//pkg`, of a host package its name *)
+Lemma gen_package_key p :
+  pkg_key p = if is_nil (p_sub p) then p_name p else s "@" ++ p_sub p ++ s "//" ++ p_name p.
+Proof. unfold pkg_key. destruct (is_nil (p_sub p)); reflexivity. Qed.
+
 (* ---- strings ------------------------------------------------------------------------------------------ *)
 Lemma has_prefix_spec pre x : has_prefix pre x = true <-> exists rest, x = pre ++ rest.
 Proof.
